@@ -206,6 +206,8 @@ def stepOp : Op → Ctl → MItem → Option (Ctl × List Act)
   | .mapBang all, c, p => mapStep (mapBangEv all) c p
   | .subst pt r n, c, p => mapStep (substEv pt r n) c p
   | .buffer, c, p => mapStep id c p
+  | .trace, c, p => mapStep id c p
+  | .mapText f, c, p => mapStep (mapTextEv f) c p
   | .empty, c, (m, x) =>
       (match c with
        | .flag false => some (.flag (m = some .enter), [.out (m, x)])
